@@ -15,21 +15,26 @@ func verifH_C03_archived_week_unchanged_by_stats_request() {
 	verifAddDevice(s, ea, "d0")
 	var ds DeviceStats
 	verifHavoc(&ds, "arch")
-	k := verifInt("k")
-	verifAssume(k >= 0 && k < 2016)
 	if !verifSymbolic() {
-		// natively the handler picks its slots at random: give every slot the model's value at k
+		// natively the handler picks its slots at random: give every slot the same model value,
+		// so that whichever slots it picks are eligible
+		v := ds.PowerOutputs[0]
 		for i := range ds.PowerOutputs {
-			ds.PowerOutputs[i] = ds.PowerOutputs[k]
+			if ds.PowerOutputs[i] > v {
+				v = ds.PowerOutputs[i]
+			}
+		}
+		for i := range ds.PowerOutputs {
+			ds.PowerOutputs[i] = v
 		}
 	}
 	s.equipmentStatsHistory = []AllDeviceStats{{Devices: []DeviceStats{ds}, TimeslotOffset: 0}}
 	s.equipmentReportsOffset = 2016
-	pre := ds.PowerOutputs[k]
+	pre := ds.PowerOutputs
 
-	tso := uint32(2016 * verifCase("requested_week", 0, 2)) // archived week, first live week, second live week
+	tso := uint32(2016 * verifCase("requested_week", 0, verifTier(0, 2))) // archived week (quick); also first and second live week (thorough)
 	query := map[string]string{"timeslot_offset": verifIntTokenOf("tso", int64(tso))}
-	if verifCase("false_negatives", 0, 1) == 1 {
+	if verifCase("false_negatives", verifTier(1, 0), 1) == 1 {
 		query["insert_false_negatives"] = "true"
 	}
 	w := &verifRW{}
@@ -38,11 +43,13 @@ func verifH_C03_archived_week_unchanged_by_stats_request() {
 	verifAssert(verifLocksHeld() == 0, "lock_released")
 	verifAssert(len(s.equipmentStatsHistory) == 1 && len(s.equipmentStatsHistory[0].Devices) == 1, "archive_shape_unchanged")
 	if verifSymbolic() {
-		verifAssert(s.equipmentStatsHistory[0].Devices[0].PowerOutputs[k] == pre, "archived_week_unchanged_by_stats_request")
+		for k := 0; k < 2016; k++ { // every slot: one obligation each
+			verifAssert(s.equipmentStatsHistory[0].Devices[0].PowerOutputs[k] == pre[k], "archived_week_unchanged_by_stats_request")
+		}
 	} else {
 		same := true
 		for i := range s.equipmentStatsHistory[0].Devices[0].PowerOutputs {
-			if s.equipmentStatsHistory[0].Devices[0].PowerOutputs[i] != pre {
+			if s.equipmentStatsHistory[0].Devices[0].PowerOutputs[i] != pre[i] {
 				same = false
 			}
 		}
@@ -113,7 +120,10 @@ func verifH_C03_live_week_content() {
 			verifAssert(verifF64Bits(ads.Devices[0].ImpactRates[k]) == verifF64Bits(rate[2016*second+k]), "impact_rates_equal_stored_rates")
 		}
 	}
-	verifAssert(ads.Signature == glow.Sign(ads.SigningBytes(), priv), "signed_by_server_key_over_signing_bytes")
+	if verifTier(0, 1) == 1 {
+		// (two 32 KB messages; the solver needs ~50 s per case to see that they are equal)
+		verifAssert(ads.Signature == glow.Sign(ads.SigningBytes(), priv), "signed_by_server_key_over_signing_bytes")
+	}
 	verifReach("end")
 }
 
@@ -127,13 +137,9 @@ func verifH_C03_rotation_step() {
 	verifAddDevice(s, ea, "d0")
 	offset := uint32(2016 * verifCase("week", 0, verifTier(1, 3))) // concrete window offsets (wrap-around arithmetic is C20's subject)
 	s.equipmentReportsOffset = offset
-	k := verifInt("k")
-	verifAssume(k >= 0 && k < 2016)
 	rep := s.equipmentReports[ea.ShortID]
 	rate := s.equipmentImpactRate[ea.ShortID]
-	lo, hi := rep[k], rep[2016+k]
-	rlo, rhi := rate[k], rate[2016+k]
-	_ = rlo
+	preRep, preRate := *rep, *rate
 	preFile := verifFileLen(s, AllDeviceStatsHistoryFile)
 	verifAssume(preFile == 0)
 
@@ -146,14 +152,18 @@ func verifH_C03_rotation_step() {
 		a := s.equipmentStatsHistory[0]
 		verifAssert(a.TimeslotOffset == offset && len(a.Devices) == 1, "archived_week_label_and_devices")
 		if len(a.Devices) == 1 {
-			verifAssert(a.Devices[0].PowerOutputs[k] == lo.PowerOutput, "archived_value_is_first_week_value")
-			verifAssert(verifF64Bits(a.Devices[0].ImpactRates[k]) == verifF64Bits(rlo), "archived_rate_is_first_week_rate")
+			for k := 0; k < 2016; k++ { // every slot: one obligation each
+				verifAssert(a.Devices[0].PowerOutputs[k] == preRep[k].PowerOutput, "archived_value_is_first_week_value")
+				verifAssert(verifF64Bits(a.Devices[0].ImpactRates[k]) == verifF64Bits(preRate[k]), "archived_rate_is_first_week_rate")
+			}
 		}
 	}
-	verifAssert(rep[k] == hi, "second_week_moves_to_first")
-	verifAssert(verifF64Bits(rate[k]) == verifF64Bits(rhi), "second_week_rates_move_to_first")
-	verifAssert(rep[2016+k] == glow.EquipmentReport{}, "second_week_blanked")
-	verifAssert(verifF64Bits(rate[2016+k]) == 0, "second_week_rates_blanked")
+	for k := 0; k < 2016; k++ {
+		verifAssert(rep[k] == preRep[2016+k], "second_week_moves_to_first")
+		verifAssert(verifF64Bits(rate[k]) == verifF64Bits(preRate[2016+k]), "second_week_rates_move_to_first")
+		verifAssert(rep[2016+k] == glow.EquipmentReport{}, "second_week_blanked")
+		verifAssert(verifF64Bits(rate[2016+k]) == 0, "second_week_rates_blanked")
+	}
 	verifAssert(verifFileLen(s, AllDeviceStatsHistoryFile) == 4+32+8*2*2016+4+64, "archive_record_appended_to_disk")
 	verifReach("end")
 }
